@@ -1,8 +1,8 @@
 SPECIFICATION Spec
 CONSTANTS Box = 13
- Quota = 8
- EQuota = 8
- MQuota = 8
+ Quota = 10
+ EQuota = 10
+ MQuota = 10
 INVARIANT ClipOK
 INVARIANT RefineOK
 INVARIANT LemmaOK
